@@ -88,6 +88,34 @@ def _inputs(ctx):
             body = [{"k": "PAC", "r": 14, "c": 4, "i": False}] + pre + item + post
             ins.append({"id": "c%d" % n, "lines": _one_caption(body), "doubled": n % 2 == 0})
             n += 1
+    # every extended character after an unusual stand-in (a special character, a blank), and every
+    # attribute of the preamble and mid-row codes: the underline twin of each code, the colours
+    sp_list = sorted(c for c in special if c != 32)
+    for j, cp in enumerate(sorted(ext)):
+        for stand in ([{"k": "SP", "x": sp_list[j % len(sp_list)]}], [{"k": "CH", "a": 32, "b": 0}]):
+            body = [{"k": "PAC", "r": 14, "c": 4, "i": False}, {"k": "CH", "a": 72, "b": 105}] + stand + \
+                   [{"k": "EXT", "x": cp}, {"k": "CH", "a": 122, "b": 0}]
+            ins.append({"id": "x%d" % n, "lines": _one_caption(body), "doubled": n % 2 == 0})
+            n += 1
+    for row in range(1, 16):
+        for italic in (False, True):
+            for underline in (False, True):
+                for color in ((0,) if italic else range(0, 7)):
+                    if ctx.quick and not underline and not italic and color not in (0, 3):
+                        continue
+                    body = [{"k": "PAC", "r": row, "c": 0, "i": italic, "u": underline, "color": color},
+                            {"k": "CH", "a": 65, "b": 66}]
+                    ins.append({"id": "x%d" % n, "lines": _one_caption(body), "doubled": (n + row) % 2 == 0})
+                    n += 1
+    for italic in (False, True):
+        for underline in (False, True):
+            for color in ((0,) if italic else range(0, 7)):
+                for lead_italic in (False, True):
+                    for dbl in (False, True):
+                        body = [{"k": "PAC", "r": 14, "c": 0, "i": lead_italic}, {"k": "CH", "a": 72, "b": 105},
+                                {"k": "MID", "i": italic, "u": underline, "color": color}, {"k": "CH", "a": 122, "b": 119}]
+                        ins.append({"id": "x%d" % n, "lines": _one_caption(body), "doubled": dbl})
+                        n += 1
     for k, c in enumerate(ctx._loads):
         for dbl in ((False, True) if not ctx.quick else (k % 2 == 0,)):
             ins.append({"id": "g%d" % n, "lines": _one_caption(c["syms"]), "doubled": dbl})
@@ -136,7 +164,13 @@ def read_scc(text, **kw):
 
 def execute(inp):
     text, abs_lines = sccgen.render_program(inp["lines"], inp["doubled"])
-    return {"k": "popon", "prog": abs_lines, "obs": read_scc(text)}
+    rec = {"k": "popon", "prog": abs_lines, "obs": read_scc(text)}
+    # the same program with its control codes sent the other way (single <-> doubled) reads the same,
+    # timing aside (where the program is well-formed both ways)
+    if in_domain(inp["lines"], False):
+        other, _ = sccgen.render_program(inp["lines"], not inp["doubled"])
+        rec["other"] = read_scc(other)
+    return rec
 
 
 def _rows_of(lines):
